@@ -36,9 +36,10 @@ def sqd(a, b):
 
 
 class Shadow:
-    __slots__ = ("vertices", "reverse", "n", "live")
+    __slots__ = ("vertices", "reverse", "n", "live", "bins")
 
-    def __init__(self, vertices, reverse):
+    def __init__(self, vertices, reverse, bins=None):
+        self.bins = bins if isinstance(bins, int) else None
         self.vertices = [((a[0], a[1]), (b[0], b[1])) for a, b in vertices]
         self.reverse = bool(reverse)
         self.n = len(self.vertices)
@@ -112,13 +113,26 @@ class Monitor:
                            "refutations": {"L": n_l, "U": n_u}})
 
     def geometry(self, index):
+        """Grid geometry as published by THIS object (instance attributes only - the class carries
+        defaults of the same names), accepted only if it is consistent with what the object was
+        built from: the bins-per-side argument and an extent that covers every path end."""
+        own = getattr(index, "__dict__", {})
         try:
-            g = (float(index.xmin), float(index.ymin), float(index.bin_size_x),
-                 float(index.bin_size_y), int(index.bins_per_side))
-        except (AttributeError, TypeError, ValueError):
+            g = (float(own["xmin"]), float(own["ymin"]), float(own["bin_size_x"]),
+                 float(own["bin_size_y"]), int(own["bins_per_side"]))
+        except (KeyError, TypeError, ValueError):
             return None
         if not all(math.isfinite(v) for v in g[:4]) or g[2] <= 0 or g[3] <= 0 or g[4] < 1:
             return None
+        sh = self.shadows.get(id(index))
+        if sh is not None:
+            if sh.bins is not None and sh.bins != g[4]:
+                return None
+            pts = [p for v in sh.vertices for p in (v if sh.reverse else v[:1])]
+            if pts:
+                if g[0] > min(p[0] for p in pts) or g[1] > min(p[1] for p in pts) or \
+                        g[0] + g[2] * g[4] < max(p[0] for p in pts) or g[1] + g[3] * g[4] < max(p[1] for p in pts):
+                    return None
         return g
 
     @staticmethod
@@ -227,7 +241,7 @@ def install(ctx):
 
     @functools.wraps(orig_init)
     def init(self, vertices, bins_per_side, reverse):
-        mon.shadows[id(self)] = Shadow(vertices, reverse)
+        mon.shadows[id(self)] = Shadow(vertices, reverse, bins_per_side)
         return orig_init(self, vertices, bins_per_side, reverse)
 
     @functools.wraps(orig_remove)
@@ -528,6 +542,21 @@ def run(ctx):
                 "answer:None (no path left)"):
         ctx.need(cls, 100)
     mon.border_verdict()
+    if ctx.counters.get("skipped:grid geometry not published (neighbourhood clauses)", 0) and \
+            not ctx.counters.get("monitor:neighbourhood clause applicable", 0):
+        # the object under test does not publish xmin / ymin / bin sizes / bins per side any more: the
+        # clauses that speak about grid cells cannot be evaluated from outside.  They are waived (and the
+        # evidence says so); None-iff-empty, live-end, range, exactly-once tour and 'global nearest when
+        # nothing else is closer' were still decided on every answer.
+        ctx.note("grid geometry not published by the object: cell-neighbourhood clauses NOT evaluated in this run")
+        ctx.extra["cell_clauses_evaluated"] = False
+        for cls in ("lattice coordinates", "continuous coordinates", "reverse=True", "reverse=False", "removals:tour",
+                    "tour step", "live=0", "live=>=2", "answer:None (no path left)"):
+            ctx.need(cls, 100)
+        ctx.need("monitor:nearest evaluated", 20_000)
+        ctx.need("monitor:tour completed (exactly-once)", 300)
+        contracts.uninstall_all()
+        return
     for cls in ("end exactly on a cell border", "query above the border", "query below the border",
                 "border number odd", "border number even", "border on axis 0", "border on axis 1"):
         ctx.need(cls, 100)
